@@ -146,7 +146,7 @@ CHECKS["C04"] = mk_civil("C04", "civil-time construction normalizes exactly",
     "Every tuple is constructed in the real library (UBSan+ASan build) and compared with the 128-bit reference value; accessor ranges asserted; alignments and cross-alignment conversions compared with field truncation.",
     ["C04:cycle-small", "C04:cycle-big", "C04:boundary-product"])
 CHECKS["C05"] = mk_civil("C05", "civil arithmetic and difference are exact inverses",
-    "every aligned value of the 146097-day cycle (day: all days; month: 4800; year: 400; hour/minute/second: every day x time of day) at eras {0, max, min [, +-1, -6, +-1e3]} x n in {0, +-(1,2,23..32,59..61,365,366,1460,1461,36524,36525,146096..146098,2*146097,2^31,2^62), INT64_MIN, INT64_MIN+1, INT64_MAX}; plus every day of the 3 first/last representable years; plus boundary-year x boundary-month/day difference product; unrepresentable results skipped and counted",
+    "every aligned value of the 146097-day cycle (day: all days; month: 4800; year: 400; hour/minute/second: every day x time of day) at eras {0, max, min [, +-1, -6, +-1e3]} x n in {0, +-(1,2,23..32,59..61,365,366,1460,1461,36524,36525,146096..146098,2*146097,2^31,2^62), INT64_MIN, INT64_MIN+1, INT64_MAX}, and for hour/minute/second alignments (era 0) every whole number of days from 364 to 397 in both directions; plus every day of the 3 first/last representable years; plus boundary-year x boundary-month/day difference product; unrepresentable results skipped and counted",
     "a+n, a-n, (a+n)-a, a-(a+n), b+(a-b), ++/--/+=/-= and all six relational operators compared with the linear index of the reference calendar, for each of the six alignments.",
     ["C05:add:day:era0", "C05:add:second:era-max", "C05:add:month:era-min", "C05:sub:year", "C05:add:day:extreme-year", "C05:diff-limit", "C05:cross-compare"])
 CHECKS["C17"] = mk_civil("C17", "weekday / yearday / next / prev weekday",
@@ -172,7 +172,7 @@ def mk_simple(pid, harness, title, rule, text, need, level_note, engine="E1", mi
 
 
 CHECKS["C15"] = mk_simple("C15", "fixed_posix", "fixed-offset zones and names",
-    "every integer offset in [-90000, 90000] (180001 values, exhaustive) x {ToName, ToAbbr, FromName(ToName), fixed_time_zone, load_time_zone(name) with a counting data source} x instants {min,0,max} (all 9 of {min,-2^59,-2^31,-1,0,1,2^31,2^59,max} for |o|<=61 or >=86390; everywhere in thorough); names: canonical names of 25 offsets x every single edit (delete/replace/insert) over 13 symbols incl. NUL and 0xff, all pairs of digit-position edits over {0,5,6,9,NUL,:}, and 30 literals; class = sign/precision class of the offset, or edit kind x accept/reject",
+    "every integer offset in [-90000, 90000] (180001 values, exhaustive), plus 64-bit offsets far beyond 24 h (+-2^31, +-2^32 +- small values, k*2^32 + {-86400..86400 sample} for k <= 40, INT64 limits) x {ToName, ToAbbr, FromName(ToName), fixed_time_zone, load_time_zone(name) with a counting data source} x instants {min,0,max} (all 9 of {min,-2^59,-2^31,-1,0,1,2^31,2^59,max} for |o|<=61 or >=86390; everywhere in thorough); names: canonical names of 25 offsets x every single edit (delete/replace/insert) over 13 symbols incl. NUL and 0xff, all pairs of digit-position edits over {0,5,6,9,NUL,:}, and 30 literals; class = sign/precision class of the offset, or edit kind x accept/reject",
     "Closed-form reference for name/abbreviation/offset and lookup result; every name string is decided by the reference recogniser; loads of fixed names must not touch the data source.",
     ["C15:neg-with-seconds", "C15:pos-with-minutes", "C15:zero", "C15:beyond-24h", "C15:name:replace:reject", "C15:name:replace:accept", "C15:name:literal"],
     "Trusted base: ref_fixed.h (30 lines, written from the statement), ref_civil.h.", min_eval=1000000)
